@@ -15,7 +15,10 @@
  that acknowledges in time -> ok; a silent peer -> never ok; a peer that does
  not read a chunk larger than the socket buffers -> never ok).  An operation
  that has not ended 2 s after its deadline is reported by the driver as hung;
- no end explains it.
+ no end explains it.  Opening: with a shared key the handshake succeeds with a
+ peer holding the same key, fails at once when the peer holds another key or
+ refuses the login, and fails at the handshake timeout when the peer never
+ sends HELO.
  ***************************************************************************)
 EXTENDS Integers, Sequences, FiniteSets, TLC, Json
 CONSTANTS TraceFile, Tol
@@ -23,7 +26,7 @@ Trace == ndJsonDeserialize(TraceFile)
 VARIABLES l, o
 E == Trace[l]
 O0 == [peer |-> "acks", k |-> 0, op |-> "none", lateMs |-> 0, closeAtMs |-> -1, sendSize |-> 0,
-       lastSent |-> "", peerWrote |-> {}, closed |-> FALSE, finalSeen |-> FALSE]
+       lastSent |-> "", peerWrote |-> {}, closed |-> FALSE, finalSeen |-> FALSE, opened |-> FALSE]
 
 Min(a, b) == IF a < b THEN a ELSE b
 \* the bound of the operation: its deadline, or the moment Close was called if that came first
@@ -60,17 +63,23 @@ TInit == l = 1 /\ o = O0 /\ TLCSet(1, 1)
 TNext ==
   /\ l <= Len(Trace) /\ l' = l + 1
   /\ CASE E.ev = "Case" -> o' = [O0 EXCEPT !.peer = E.peer, !.k = E.k, !.op = E.op, !.lateMs = E.lateMs, !.closeAtMs = E.closeAtMs, !.sendSize = E.sendSize]
-       [] E.ev = "Opened" -> UNCHANGED o
+       [] E.ev = "OpenRet" ->          \* opening, with the shared-key handshake if a secret is configured
+            /\ CASE E.secret \in {"", "right"} -> E.ok
+                 [] E.secret \in {"wrongkey", "reject"} -> ~E.ok /\ E.ms <= Tol                  \* refused: an error at once
+                 [] E.secret = "mute" -> ~E.ok /\ E.ms >= E.hsTimeoutMs - 2 /\ E.ms <= E.hsTimeoutMs + Tol   \* no HELO: an error at the handshake timeout
+                 [] E.secret = "tlsmute" -> ~E.ok /\ E.ms >= E.connTimeoutMs - 2 /\ E.ms <= E.connTimeoutMs + Tol   \* no TLS handshake: an error at the connection timeout
+                 [] OTHER -> FALSE
+            /\ o' = [o EXCEPT !.opened = E.ok]
        [] E.ev = "PeerGot" -> UNCHANGED o
        [] E.ev = "PeerGotPing" -> UNCHANGED o
        [] E.ev = "PeerAcks" -> o' = [o EXCEPT !.peerWrote = @ \cup {E.id}]
        [] E.ev = "Ret" ->
-            /\ ~E.hung
+            /\ ~E.hung /\ o.opened
             /\ IF \E how \in Allowed(E) : Fits(how, E) THEN TRUE ELSE FALSE        \* (IF: one successor, whichever explanation fits)
             /\ o' = [o EXCEPT !.lastSent = IF E.op = "send" /\ E.phase # "afterClose" THEN E.id ELSE @,
                               !.finalSeen = @ \/ E.phase = "final"]
        [] E.ev = "Closed" -> o.finalSeen /\ o' = [o EXCEPT !.closed = TRUE]
-       [] E.ev = "End" -> o.closed /\ UNCHANGED o
+       [] E.ev = "End" -> (o.closed \/ ~o.opened) /\ UNCHANGED o
        [] E.ev = "RESET" -> o' = O0
        [] OTHER -> FALSE      \* HarnessError
 TSpec == TInit /\ [][TNext]_<<l, o>>
